@@ -229,6 +229,8 @@ class StateMachine(metaclass=StateMachineMetaclass):
 
             :ref:`listeners`.
         """
+        # A listener that is already attached is not resolved again: its callbacks are registered.
+        listeners = tuple(o for o in listeners if o not in self._listeners)
         self._listeners.update({o: None for o in listeners})
         return self._add_listener(
             Listeners.from_listeners(Listener.from_obj(o) for o in listeners),
